@@ -81,6 +81,7 @@ type distrFam struct {
 	anyFault  bool
 	nextFault map[int]bool
 	blocks    int
+	gstates   []*distrtypes.State
 }
 
 func df(x *Exec) *distrFam {
@@ -246,6 +247,36 @@ func execDistr(x *Exec, toks []string) string {
 		p := distrtypes.Params{SubDistributors: cloneSubs(f.pending)}
 		res, _ := catch(func() error { return p.Validate() })
 		return res
+	case "d.gstate":
+		// one state of a genesis file: <burn> <account|-> <dec coins, 10^18-scaled>
+		st := &distrtypes.State{Burn: toks[1] == "1"}
+		if toks[2] != "-" {
+			p := strings.Split(toks[2], "|")
+			st.Account = &distrtypes.Account{Type: unesc(p[0]), Id: unesc(p[1])}
+		}
+		inner := strings.TrimSuffix(strings.TrimPrefix(toks[3], "["), "]")
+		if inner != "" {
+			for _, it := range strings.Split(inner, ",") {
+				kv := strings.SplitN(it, "=", 2)
+				st.Remains = append(st.Remains, sdk.DecCoin{Denom: unesc(kv[0]), Amount: sdk.NewDecFromBigIntWithPrec(intTok(kv[1]).BigInt(), 18)})
+			}
+		}
+		f.gstates = append(f.gstates, st)
+		return "."
+	case "d.ginit":
+		// GenesisState.Validate (as `validate-genesis` runs it) and then the module's InitGenesis
+		gs := distrtypes.GenesisState{Params: f.keeper.GetParams(x.ctx), States: f.gstates}
+		f.gstates = nil
+		res, _ := catch(func() error { return gs.Validate() })
+		if res != "ok" {
+			return res
+		}
+		// (used at the start of a scenario: the store holds no states yet)
+		res, _ = catch(func() error { cfedistributor.InitGenesis(x.ctx, *f.keeper, gs, app.AccountKeeper); return nil })
+		if res != "ok" {
+			return res
+		}
+		return "ok states=" + distrStatesStr(f.keeper.GetAllStates(x.ctx))
 	case "d.setparams":
 		p := distrtypes.Params{SubDistributors: cloneSubs(f.pending)}
 		res, _ := catch(func() error { return f.keeper.SetParams(x.ctx, p) })
